@@ -272,3 +272,80 @@ func c05one(r *kit.Run, slabs []*util.Slab, raw []rune, pats [][]rune) {
 		}
 	}
 }
+
+// Long lines: which algorithm runs (V2, or the greedy fall-back when N*M exceeds the slab) and where its scratch
+// arrays come from (slab or heap) depend on sizes around the slab capacity. The result of every case on a slab that
+// an earlier LONG case used must equal its result on a fresh slab of the standard size.
+func TestVerif_C05_slab_histories_long(t *testing.T) {
+	r := kit.Start("C05", "slab-histories-long")
+	if r == nil {
+		t.Skip()
+	}
+	defer r.Finish()
+	Init("default")
+	type lc struct {
+		n     int
+		shape string
+		pat   string
+	}
+	var cases []lc
+	for _, n := range []int{3, 2000, 2047, 2049, 20000, 34000, 51199, 51200, 51201, 60000, 70000} {
+		for _, shape := range []string{"head+tail", "tail", "spread"} {
+			for _, pat := range []string{"ab", "a"} {
+				cases = append(cases, lc{n, shape, pat})
+			}
+		}
+	}
+	build := func(c lc) util.Chars {
+		raw := make([]byte, c.n)
+		for i := range raw {
+			raw[i] = 'x'
+		}
+		switch c.shape {
+		case "head+tail":
+			copy(raw, "a b")
+			if c.n >= 6 {
+				copy(raw[c.n-3:], " ab")
+			}
+		case "tail":
+			if c.n >= 2 {
+				copy(raw[c.n-2:], "ab")
+			}
+		case "spread":
+			raw[0] = 'a'
+			raw[c.n-1] = 'b'
+			raw[c.n/2] = 'a'
+		}
+		return util.ToChars(raw)
+	}
+	call := func(c lc, slab *util.Slab) string {
+		chars := build(c)
+		res, pos := FuzzyMatchV2(false, true, true, &chars, []rune(c.pat), true, slab)
+		return fmt.Sprint(res, copyPos(pos))
+	}
+	r.Sample(map[string]any{"history": "N=20000 'ab' (overflows the slab)", "case": "N=60000 'ab' (N*M beyond the slab: greedy fall-back)"})
+	idx := 0
+	for vi, victim := range cases {
+		fresh := call(victim, util.MakeSlab(100*1024, 2048))
+		for pi, pred := range cases {
+			idx++
+			if !r.Mine(idx) {
+				continue
+			}
+			slab := util.MakeSlab(100*1024, 2048)
+			call(pred, slab)
+			got := call(victim, slab)
+			r.Eval()
+			r.Trans()
+			if got != fresh {
+				r.Violation("slab-history-changes-result:long-lines", map[string]any{"history": fmt.Sprintf("N=%d %s %q", pred.n, pred.shape, pred.pat),
+					"case": fmt.Sprintf("N=%d %s %q", victim.n, victim.shape, victim.pat), "got": got, "fresh_standard_slab": fresh})
+			} else {
+				r.NT()
+			}
+			_ = pi
+		}
+		_ = vi
+		r.State()
+	}
+}
